@@ -69,7 +69,10 @@ def r07_1(ctx):
     cmp_table(ctx, "R07.1", "decimal::TABLE_POW5", gp, wp + [0] * (len(gp) - len(wp)) if len(gp) >= len(wp) else wp, tp["file"])
     p = prog.const("parse_long_mantissa::POWERS")
     cmp_table(ctx, "R07.1", "slow::POWERS", list(bytes.fromhex(p["bytes"])), oracles.slow_powers(19), p["file"])
-    ctx.ob("R07.1", "const:slow::MAX_SHIFT", prog.const_int("parse_long_mantissa::MAX_SHIFT") == 60 and prog.const_int("parse_long_mantissa::NUM_POWERS") == 19, p["file"], "MAX_SHIFT = 60 (largest shift the left-shift table supports), NUM_POWERS = 19")
+    npw = prog.const("parse_long_mantissa::NUM_POWERS", required=False)   # a separate length constant, if there is one, is the table's length
+    n_powers = len(bytes.fromhex(p["bytes"]))
+    ctx.ob("R07.1", "const:slow::MAX_SHIFT", prog.const_int("parse_long_mantissa::MAX_SHIFT") == 60 and (npw is None or int(npw["int"]) == n_powers), p["file"],
+           f"MAX_SHIFT = 60 (largest shift the left-shift table supports), POWERS has {n_powers} entries" + (f", NUM_POWERS = {npw['int']}" if npw else " (no separate length constant)"))
     # pow10 fast path tables of RawFloat
     t64 = prog.const("<f64 as float::RawFloat>::pow10_fast_path::TABLE")
     w = oracles.pow10_f64_bits(23)
